@@ -110,3 +110,10 @@ claim(
     "Trusted: epoch-millisecond integer arithmetic in acnverif/props/c15.py; stochastic max_len compared in hours (pinned by existing tests); 1e-6 kWh fit tolerance; float floors within 1e-9 relative of an integer accept both neighbours.",
     "DESIGN.md 3/C15",
 )
+claim(
+    "C16",
+    "Hypothesis-generated frontier search (generated weight patterns and ascent orders, bisection and coordinate ascent on network.is_feasible, hypothesis.target on P/capacity) against a physical, angle-free power bound and independently computed pod / panel line currents from a transcribed topology; exhaustive structural sub-check over sites x EVSE types",
+    "Exploration: 320 (quick) / 30 000 (thorough) frontier starts over caltech / jpl / office001, basic and real EVSE types, transformer capacities in (10, 400) kW chosen so that the transformer binds, phase-aware and linear feasibility. Every accepted schedule (scaled, ascended, snapped to allowable levels) keeps 120*sqrt(3)*sum(I) within each transformer's rating (best ratios reached: 0.99999, never above 1) and every pod / sub-panel line current within its rating. Exhaustive: documented station sets (54/52/8), angles equal to the documented line-to-line pair, every station in its transformer's secondary constraints, EVSE level sets.",
+    "Trusted: the topology tables and delta-connection computation in acnverif/props/c16.py; nominal 120/208 V, unity power factor.",
+    "DESIGN.md 3/C16",
+)
